@@ -46,4 +46,4 @@ Fixpoint close_at_end (es : list sevent) : list sevent :=
   end.
 
 (* the peer of a server is a client and vice versa; same negotiated extension, no limits *)
-Definition peer_cfg (cfg : wcfg) : scfg := mkScfg (negb (wc_server cfg)) (wc_compress cfg) 0 0.
+Definition peer_cfg (cfg : wcfg) : scfg := mkScfg (negb (wc_server cfg)) (wc_compress cfg) 0 0 no_avail.
